@@ -182,3 +182,7 @@ _add('C12', 'Laws "custom alias = its definition inside :is()" for 4 aliases x 8
 _add('C16', 'The probe includes an XHTML document binding the prefixes html: and svg: to other URIs (Beautiful Soup passes the document prefixes as namespaces=).')
 _add('C19', 'A document parsed by html.parser, lxml and html5lib holding script / style / template / ruby / textarea / title / noscript / CDATA / PI content, 34 selectors against the reference.')
 _add('C20', 'All words of <=2 lexemes as the definition of a custom selector used inside an outer pattern: the reported offset lies inside the text the context shows.')
+
+# ---- additions after wave 9 ----
+_add('C01', 'Functional lists with the complex selector in LAST and MIDDLE position and two complex selectors side by side (:is(X, A > B), :not(X, A B, Y), :where(A + B, C ~ D)), under every anchor and neighbour form of layer F.')
+_add('C08', 'Layer pairs: every unordered pair of pseudo-class atoms written as ONE compound (4444 compounds; both orders when one member reads text or keeps per-call bookkeeping) on parsed documents (quick: forms via html.parser, struct via html5lib; thorough: 6 documents x 5 builders), all entry points on the document and match() on every element.')
